@@ -332,7 +332,13 @@ def catalogue(tier, seed):
     F = []
     conts = containers(tier)
 
+    # measured CPU ms per case (only used to balance the shards)
+    W = {'SE3.RPY': 2.6, 'base.eul2tr': 2.0, 'base.eul2r': 2.0, 'SE3.Eul': 2.7, 'base.tr2jac': 2.4, 'SE3.__mul__': 2.0,
+         'SE3.Ad': 3.7, 'base.det': 0.6, 'base.trinv': 1.5, 'base.tr2delta': 1.7, 'SE3.inv': 1.5, 'base.qpow': 1.5,
+         'SO3.__mul__': 2.0, 'SE2.__mul__': 1.5, 'base.trinv2': 1.0, 'base.cross': 0.6}
+
     def add(func, name, groups, build, **kw):
+        kw.setdefault('weight', W.get(func, 0.4))
         F.append(Form(func, name, groups, build, tier=tier, **kw))
 
     def lenscale(power):
@@ -856,11 +862,11 @@ def run_unit(ctx, form, k, n):
 def _units(tier, seed):
     """[(cost, func, form name, k, n)] : forms split into chunks of bounded estimated cost"""
     forms = catalogue(tier, seed)
-    target = 2500.0 if tier == 'quick' else 40000.0
+    target = 2500.0 if tier == 'quick' else 30000.0
     units = []
     for f in forms:
         ncases = len(f.subsets) * f.npoints()
-        cost = ncases * f.weight + 0.05 * f.npoints()
+        cost = ncases * f.weight + 0.03 * f.npoints()
         n = max(1, int(math.ceil(cost / target)))
         for k in range(n):
             units.append((cost / n, f.func, f.name, k, n))
